@@ -11,7 +11,7 @@ fn ilist(rng: &mut Rng, n: usize) -> String {
 
 /// One block of forms; `u` is a unique suffix for global names.
 pub fn block(rng: &mut Rng, u: usize, tags: &mut Vec<String>) -> Vec<String> {
-    let t = rng.below(20);
+    let t = rng.below(21);
     tags.push(format!("cont-t{}", t));
     let a = rng.range(1, 9);
     let b = rng.range(2, 5);
@@ -308,6 +308,29 @@ pub fn block(rng: &mut Rng, u: usize, tags: &mut Vec<String>) -> Vec<String> {
                 f.push(format!("(length (junk{u} 30))", u = u));
             }
             f
+        }
+        19 => {
+            // a continuation captured in a map callback (not for the first element) and re-entered after map has
+            // returned: the second return builds its own list, the list returned earlier is not mutated
+            let len = 3 + rng.below(3);
+            let pos = 2 + rng.below(len - 1);
+            let l: Vec<String> = (1..=len).map(|i| i.to_string()).collect();
+            let two = rng.below(2) == 1;
+            let call = if two {
+                format!("(map (lambda (x y) (call/cc (lambda (c) (if (= x {pos}) (set! k{u} c)) (+ (* x 10) y)))) '({l}) '({l}))", pos = pos, u = u, l = l.join(" "))
+            } else {
+                format!("(map (lambda (x) (call/cc (lambda (c) (if (= x {pos}) (set! k{u} c)) (* x 10)))) '({l}))", pos = pos, u = u, l = l.join(" "))
+            };
+            vec![
+                format!("(define k{u} #f)", u = u),
+                format!("(define cnt{u} 0)", u = u),
+                format!("(define r{u} {})", call, u = u),
+                format!("(define saved{u} r{u})", u = u),
+                format!("(if (< cnt{u} 1) (begin (set! cnt{u} (+ cnt{u} 1)) (k{u} 'again)) 'done)", u = u),
+                format!("(list saved{u} r{u} (eq? saved{u} r{u}))", u = u),
+                format!("(if (< cnt{u} 2) (begin (set! cnt{u} (+ cnt{u} 1)) (k{u} 'third)) 'done)", u = u),
+                format!("(list saved{u} r{u})", u = u),
+            ]
         }
         _ => {
             // invoked from inside a for-each callback of a later form: abandons that loop
